@@ -85,8 +85,8 @@ CLAIMED = {
          'plus initial values and rotate. All obligations are for every block and every chaining value. The streaming layer is under contract too, with the compression function replaced by a recorder of '
          'which bytes it is handed (ghost block index / byte index): md5_append and sha1::process_byte/process_block(range) advance the 64-bit length exactly and hand over exactly the completed 64-byte blocks of '
          '(buffered bytes ++ input) in order (chunking independence, for every split); md5_finish and sha1::get_digest hand over buffered bytes ++ 0x80 ++ zeros ++ bit length (little/big endian) '
-         'in one or two final blocks for EVERY residue of the length mod 64 (RFC 1321 3.1-3.2 / FIPS 180-4 5.1.1), and emit the registers in the standard byte order.',
-    note=TRUST + 'Not covered: HMAC and hex key parsing (src/crypto.cpp, virtual message_digest objects over std::vector), SHA-2 and AES-CBC (OpenSSL/libgcrypt, external) and agreement of bundled vs. library '
+         'in one or two final blocks for EVERY residue of the length mod 64 (RFC 1321 3.1-3.2 / FIPS 180-4 5.1.1), and emit the registers in the standard byte order. HMAC (crypto::hmac::init / readout over an abstract message_digest): K\' = key padded with zeros, or H(key) padded when the key is longer than a block; the inner hash starts with K\' xor 0x36.., the outer with K\' xor 0x5c.. (every byte, observed at an arbitrary index); the tag is the outer hash read out after it was fed exactly the inner digest; the object is re-armed afterwards (RFC 2104).',
+    note=TRUST + 'Not covered: hex key parsing and the message_digest wrappers of src/crypto.cpp (virtual objects; abstract recorders in the HMAC jobs), SHA-2 and AES-CBC (OpenSSL/libgcrypt, external) and agreement of bundled vs. library '
          'implementations. md5_finish is proved with md5_append inlined and its constant 8/16-iteration loops unwound (complete). Message length restricted to < 2^28 bytes per md5_append call (int nbytes << 3) and '
          '<= 10^6 buffered bytes for SHA-1 (the 32-bit bit count written by get_digest is exact below 2^29 bytes; above that sha1.h truncates - observation). Overflow checks are off in the compression functions (modular arithmetic by definition).',
     design='4 (C16)', technique='cbmc: cut-point (assert-then-assume) equivalence per step, loop contracts with ghost lock-step state machine; dfcc contracts with a ghost block recorder for the streaming layer'),
